@@ -25,7 +25,7 @@ RULE = (
     "Hypothesis draws a template set: 1-3 main templates (optionally extending a shared base with overridable blocks "
     "and super()), a shared macro library m0 (module body and macros contain gates; imported without context = cached "
     "default module, with context, via from-import, called with call blocks), shared includes (with and without "
-    "context), per-template globals, bodies with loops over lists and async iterables (loop.index/cycle/changed/last/"
+    "context), per-template globals, bodies with async-def, types.coroutine and __await__-object data functions, loops over lists, plain generators and async iterables (loop.index/cycle/changed/last/"
     "previtem), set inside loops read back through a pass_context function, namespaces, cyclers, joiners, autoescape "
     "blocks, with blocks, filter blocks, local macros with call blocks; 2-3 tasks over those mains with distinct data. "
     "Per set every release order over the task indices up to length 6 (2 tasks) / 5 (3 tasks) in quick, 8 / 7 in "
@@ -35,7 +35,7 @@ RULE = (
     "release sequence interleaves them (some task is resumed after another task ran in between); distinct = distinct case."
 )
 ASSUMPTIONS = [
-    "differential oracle: expected output is computed by the same implementation, rendered alone on a fresh environment; a defect common to both is invisible",
+    "differential oracle: expected output is computed by the same implementation, rendered alone on a fresh environment after the jinja2 package's module-level and class-level containers (set/dict/list) were put back to their import-time contents (approximation of a fresh process: state kept in other objects is not reset); the concurrent run starts from the same state, so a case never depends on earlier cases; a defect common to both sides is invisible",
     "tasks interleave only at harness gates (the templates' only suspending awaits), i.e. at asyncio task granularity",
     "no mutable data object is shared between tasks by the harness; library templates keep no module-level cycler/namespace that importers use (documented cache sharing of imported modules is not interference)",
     "tasks with different per-template globals always use different main templates (get_template documents that globals of a cached template are updated)",
@@ -56,12 +56,17 @@ def _body_src(nodes, d):
             out.append("{{ %s }}" % k)
         elif k == "g":
             out.append("{{ gate() }}")
+        elif k == "tc":  # generator-based coroutine (types.coroutine): type 'generator', awaitable
+            out.append("{{ tc() }}")
+        elif k == "aw":  # object with __await__
+            out.append("{{ aw() }}")
         elif k == "i":
             out.append("{{ i%d }}" % (d - 1) if d > 0 else "{{ x }}")
         elif k == "for":
             _, itk, cnt, use, body = n
             var = "i%d" % d
-            out.append("{%% for %s in %s(%d) %%}%s%s{%% endfor %%}" % (var, "seq" if itk == "s" else "aseq", cnt, LOOPUSE[use], _body_src(body, d + 1)))
+            fn = {"s": "seq", "a": "aseq", "r": "rows"}[itk]  # rows(): a plain generator object (not awaitable)
+            out.append("{%% for %s in %s(%d) %%}%s%s{%% endfor %%}" % (var, fn, cnt, LOOPUSE[use], _body_src(body, d + 1)))
         elif k == "lset":
             v = "i%d" % (d - 1) if d > 0 else "x"
             out.append("{%% set lv = x ~ %s %%}{{ gate() }}{{ pc('lv') }}{{ lv }}" % v)
@@ -169,6 +174,7 @@ class _Sched:
 
     def globals(self):
         import asyncio
+        import types
 
         import jinja2
 
@@ -196,11 +202,24 @@ class _Sched:
         def seq(n):
             return list(range(n))
 
+        def rows(n):
+            return (i for i in range(n))
+
+        @types.coroutine
+        def tc():
+            yield from gate().__await__()
+            return "~"
+
+        class Aw:
+            def __await__(self):
+                yield from gate().__await__()
+                return "^"
+
         @jinja2.pass_context
         def pc(ctx, name):
             return "%s" % (ctx.resolve(name),)
 
-        return dict(gate=gate, aseq=aseq, seq=seq, pc=pc)
+        return dict(gate=gate, aseq=aseq, seq=seq, pc=pc, rows=rows, tc=tc, aw=Aw)
 
     async def settle(self):
         import asyncio
@@ -261,6 +280,7 @@ def _run(case, src, task_ids, order, drain):
 
     import jinja2
 
+    _fresh_process_state()
     env = _env_class()(loader=jinja2.DictLoader(src), enable_async=True)
     st = _Sched()
     env.globals.update(st.globals())
@@ -270,6 +290,43 @@ def _run(case, src, task_ids, order, drain):
     finally:
         loop.close()
     return out, st
+
+
+_PRISTINE = []
+
+
+def _snapshot_process_state():
+    """Copies of every plain module-level / class-level container (set, dict, list) of the jinja2 package, taken when this
+    module is imported, i.e. before anything was rendered in this process (forked workers inherit the copies)."""
+    import copy
+    import sys
+
+    import jinja2.async_utils  # noqa: F401 - make sure the lazily imported modules are loaded
+    import jinja2.debug  # noqa: F401
+
+    for name, mod in sorted(sys.modules.items()):
+        if mod is None or not (name == "jinja2" or name.startswith("jinja2.")):
+            continue
+        holders = [mod] + [v for v in vars(mod).values() if isinstance(v, type) and getattr(v, "__module__", None) == name]
+        for holder in holders:
+            for attr, val in list(vars(holder).items()):
+                if type(val) in (set, dict, list) and not attr.startswith("__"):
+                    _PRISTINE.append((val, copy.copy(val)))
+
+
+_snapshot_process_state()
+
+
+def _fresh_process_state():
+    """Put the package's process-wide containers back to their import-time contents, so that every run of a case (the
+    reference renders and the concurrent run) starts like a fresh process and a case never depends on earlier cases."""
+    for live, saved in _PRISTINE:
+        if live != saved:
+            live.clear()
+            if isinstance(live, list):
+                live.extend(saved)
+            else:
+                live.update(saved)
 
 
 def _solo(case, src, ti):
@@ -363,7 +420,7 @@ def _strategy(maxdepth, with_order):
 
         def node(self, c, depth):
             draw = self.draw
-            kinds = ["t", "x", "g", "g", "g", "h", "tg"]
+            kinds = ["t", "x", "g", "g", "g", "h", "tg", "tc", "aw"]
             if c["loopd"] > 0:
                 kinds += ["i", "lset", "lset"]
             if c["super"]:
@@ -382,13 +439,13 @@ def _strategy(maxdepth, with_order):
             k = draw(st.sampled_from(kinds))
             if k == "t":
                 return ["t", draw(st.sampled_from(["T", "u", "<b>"]))]
-            if k in ("x", "g", "h", "tg", "i", "lset", "set", "cyc", "sup"):
+            if k in ("x", "g", "h", "tg", "i", "lset", "set", "cyc", "sup", "tc", "aw"):
                 return [k]
             if k in ("ns", "join"):
                 return [k, draw(st.sampled_from([2, 1, 3]))]
             if k == "for":
                 c2 = dict(c, loopd=c["loopd"] + 1)
-                return ["for", draw(st.sampled_from(["s", "s", "a"])), draw(st.sampled_from([2, 2, 3, 1])), draw(st.sampled_from([0, 1, 2, 3, 4, 5])),
+                return ["for", draw(st.sampled_from(["s", "r", "a"])), draw(st.sampled_from([2, 2, 3, 1])), draw(st.sampled_from([0, 1, 2, 3, 4, 5])),
                         self.body(c2, depth + 1, 1, 2)]
             if k == "auto":
                 return ["auto", draw(st.booleans()), self.body(c, depth + 1, 1, 2)]
